@@ -47,7 +47,8 @@ def gauge_part(rep, n, seeds, park):
 def impl_model_part(rep, th):
     """Level 2: ShareImpl.tla (Share at lock grain) explored exhaustively: the counter per generation of the code (fix 75994e7) keeps OneLive / NonNegative /
     Grammar / Released under every interleaving; Released is EXPECTED to fail for the former single counter (the repaired finding, kept at design level)."""
-    for cfgname in ['ShareImpl_aware.cfg'] + (['ShareImpl_aware3.cfg'] if th else []):
+    # ShareImpl_flags.cfg: 4 operations per thread for the configurations in which a termination is kept (the bound of 3 had hidden the stale-flag defect, 1046747)
+    for cfgname in ['ShareImpl_aware.cfg', 'ShareImpl_flags.cfg'] + (['ShareImpl_aware3.cfg'] if th else []):
         # deadlock checking ON (SpecNoStuckCall): a state without successor other than "every thread used its operations and is idle" is a call that never returns
         r = vlib.run_tlc('ShareImpl', cfgname, timeout=1500, deadlock=True)
         vlib.tlc_must_pass(r, cfgname)
